@@ -73,6 +73,10 @@ fn gen_cases(rng: &mut Rng, tier: Tier) -> Vec<Value> {
                 cfg.jobs = (15, 32);
                 cfg.vehicles_per_type = (2, 4);
             }
+            // one problem in twelve has long tours (the stochastic leg selection only samples from 16-32 legs on)
+            if i % 12 == 10 {
+                cfg = GenCfg::long_tours();
+            }
             // the proof-backed stream: metric matrices
             cfg.metric = true;
             // every sixth problem asks for vicinity clustering (jobs are merged into cluster jobs before the search and
